@@ -35,6 +35,7 @@ PROP_FILES = [C20 / "Props.v"]          # generic part: in _CoqProject, built by
 PER_RUN_BASE = C20 / "PerRunBase.v"
 PER_RUN_PARTS = [C20 / "PerRunAug.v", C20 / "PerRunPass.v", C20 / "PerRunInterp.v", C20 / "PerRunSched.v",
                  C20 / "PerRunVal.v"]
+PER_RUN_LAST = C20 / "PerRunChain.v"    # needs PerRunPass and PerRunVal: compiled when the parallel ones are done
 PER_RUN = C20 / "PerRun.v"              # re-exports the parts (status booleans are evaluated through it)
 GEN_CHAIN = [GEN / "C20_Schema.v", GEN / "C20_Builders.v", C20 / "Eval.v"]
 PREAMBLE = ("From SV Require Import C20.CfgTree Gen.C20_Schema Gen.C20_Builders C20.Eval.\n"
@@ -374,6 +375,12 @@ class Impl:
         # schema defaults declared as a mutable literal (not a factory): attrs hands the SAME object to every instance
         self.mutable_literal_fields = {(n, a.name) for n, c in self.classes.items() for a in c.__attrs_attrs__
                                        if isinstance(a.default, (list, dict, set)) or is_attrs(a.default)}
+        import inspect
+        for b in ("get_aug_config", "get_backbone_config", "get_head_configs", "get_data_config", "get_model_config",
+                  "get_trainer_config"):           # ... and mutable default arguments of the builders
+            for pn, prm in inspect.signature(getattr(T, b)).parameters.items():
+                if isinstance(prm.default, (list, dict, set)):
+                    self.mutable_literal_fields.add((b, pn))
 
     def builder(self, name):
         return getattr(self.T, name)
@@ -393,8 +400,10 @@ class Impl:
             out.append([a.name, canon(d)])
         return {"o": cname, "kv": out}
 
-    def chain(self, dkw, mkw, tkw):
-        """builders -> TrainingJobConfig -> to_sleap_nn_cfg -> verify x2 -> YAML round trip."""
+    def chain(self, dkw, mkw, tkw, via_train=False):
+        """builders -> TrainingJobConfig -> to_sleap_nn_cfg -> verify x2 -> YAML round trip.
+        via_train: the configuration is the one `sleap_nn.train.train(**all arguments)` hands to
+        `run_training` (replaced by a recorder: no training is started); it must equal the one built here."""
         OC, J = self.OC, self.J
         dc = self.T.get_data_config(**dkw)
         mc = self.T.get_model_config(**mkw)
@@ -402,6 +411,17 @@ class Impl:
         job = J.TrainingJobConfig(data_config=dc, model_config=mc, trainer_config=tc)
         c = job.to_sleap_nn_cfg()
         cont = canon(OC.to_container(c))
+        train_same = None
+        if via_train:
+            got, old = [], self.T.run_training
+            self.T.run_training = got.append
+            try:
+                self.T.train(**dkw, **mkw, **tkw)
+            finally:
+                self.T.run_training = old
+            c = got[0]
+            train_same = len(got) == 1 and dumps(canon(OC.to_container(c))) == dumps(cont)
+            cont = canon(OC.to_container(c))
         v1 = J.verify_training_cfg(c)
         c1 = canon(OC.to_container(v1))
         v2 = J.verify_training_cfg(v1)
@@ -411,7 +431,7 @@ class Impl:
         loaded = OC.load(p)
         cl = canon(OC.to_container(loaded))
         vl = canon(OC.to_container(J.verify_training_cfg(loaded)))
-        self.last_chain = {"cont": cont, "yaml_same": dumps(cl) == dumps(cont), "verify_loaded_same": dumps(vl) == dumps(cont),
+        self.last_chain = {"cont": cont, "train_same": train_same, "yaml_same": dumps(cl) == dumps(cont), "verify_loaded_same": dumps(vl) == dumps(cont),
                            "attrs": {"data_config": canon(dc), "model_config": canon(mc), "trainer_config": canon(tc)}}
         return Pre({"d": [["cfg", cont], ["norm_same", dumps(c1) == dumps(cont)], ["norm_idem", dumps(c2) == dumps(c1)]]})
 
@@ -960,6 +980,19 @@ def gen_cases(run, impl):
            "geometry_aug": {"rotation": NAN, "scale": (INF, 1.0), "mixup_lambda": [0.125, NAN]}},
           {"head_configs": "bottomup"}, {})
     chain({}, {"head_configs": None}, {})
+    # -- G7: the public entry point train(...): every parameter forwarded to the right builder parameter
+    def train_case(kw, **meta):
+        parts = {b: {k: v for k, v in kw.items() if k in sent[b]} for b in sent}
+        d = {**base["get_data_config"], **parts["get_data_config"]}
+        m, t = parts["get_model_config"], parts["get_trainer_config"]
+        add("train", f"CChain {kw_term(d)} {kw_term(m)} {kw_term(t)}",
+            (lambda d=d, m=m, t=t: impl.chain(d, m, t, via_train=True)), dkw=d, mkw=m, tkw=t, **meta)
+
+    every = {p: v for b in sent for p, v in sent[b].items()}
+    train_case({"head_configs": "centroid"})
+    for p, v in every.items():
+        train_case({"head_configs": "centroid", **COMPANION.get(p, {}), p: v}, one=p)
+    train_case({**every, "use_augmentations_train": True}, all_together=True)
     for _ in range(4 if not thorough else 40):
         dk = {p: sent["get_data_config"][p] for p in rng.sample(list(sent["get_data_config"]), 5)
               if p not in ("intensity_aug", "geometry_aug")}
@@ -997,6 +1030,26 @@ def norm_cases(impl, conts, rng, n):
         d = copy.deepcopy(cont)
         d["data_config"]["train_labels_path"] = "???"
         add(d, "missing mandatory value")
+        # construction paths that bypass the attrs classes: a YAML / DictConfig with two head types, two
+        # backbones, an out-of-range probability, an invalid scale (see the observation on verify_training_cfg)
+        d = copy.deepcopy(cont)
+        hc = d["model_config"]["head_configs"]
+        for h in hc:
+            if hc[h] is None:
+                hc[h] = {"confmaps": {"part_names": None, "sigma": 5.0, "output_stride": 1}}
+                break
+        add(d, "two head types in the container")
+        d = copy.deepcopy(cont)
+        bc = d["model_config"]["backbone_config"]
+        for b in bc:
+            if bc[b] is None:
+                bc[b] = {"in_channels": 1, "output_stride": 1, "max_stride": 16}
+                break
+        add(d, "two backbones in the container")
+        d = copy.deepcopy(cont)
+        d["data_config"]["preprocessing"]["scale"] = -1.0
+        d["data_config"]["augmentation_config"] = {"intensity": {"contrast_p": 1.5}, "geometric": {"affine_p": float("nan")}}
+        add(d, "invalid scale and probabilities in the container")
     return out
 
 
@@ -1046,6 +1099,8 @@ def build_generated(run):
     def join():
         results = [base] + [f.result() for f in futs]
         ex.shutdown()
+        if futs and all(r["rc"] == 0 for r in results):
+            results.append(core.check_props(PER_RUN_LAST, 600))
         ok = base["rc"] == 0
         for res in results:
             ok = ok and res["rc"] == 0 and not res["foreign_axioms"] and not res.get("unprinted")
@@ -1085,6 +1140,9 @@ def check(run: core.Run) -> int:
 
 
 def _check(run, impl, summary, built, join_perrun):
+    import time
+    t_start = time.time()
+    stages = run.coverage.setdefault("stage_wall_s", {})
     cases, sent = gen_cases(run, impl)
     # implementation
     for c in cases:
@@ -1092,7 +1150,7 @@ def _check(run, impl, summary, built, join_perrun):
             c["impl"], c["second"] = attempt_twice(c["fn"])
         else:
             c["impl"] = attempt(c["fn"])
-        if c["kind"] == "chain":
+        if c["kind"] in ("chain", "train"):
             c["extra"] = getattr(impl, "last_chain", None) if "ok" in c["impl"] else None
             impl.last_chain = None
     conts = []
@@ -1103,6 +1161,7 @@ def _check(run, impl, summary, built, join_perrun):
     for c in ncases:
         c["impl"] = attempt(c["fn"])
     cases += ncases
+    stages["implementation (all cases, sequences included)"] = round(time.time() - t_start, 1)
 
     # translator summary vs the live signatures
     if summary is not None:
@@ -1138,6 +1197,7 @@ def _check(run, impl, summary, built, join_perrun):
             model = core.coq_eval_sharded(PREAMBLE, [c["term"] for c in cases], "run", "rrun", shard=160, timeout=900)
         except core.CoqEvalError as e:
             run.obligation("model evaluation (vm_compute) of the generated functions", False, str(e)[-1200:])
+    stages["model evaluation (vm_compute, parallel shards)"] = round(time.time() - t_start - sum(stages.values()), 1)
     disagreements = 0
     if model is not None:
         for c, m in zip(cases, model):
@@ -1267,7 +1327,7 @@ def _check(run, impl, summary, built, join_perrun):
                            SEL_F16 if (fam == "ConvNext" and accepted and not want) else None)
             if "oneof" in c and accepted != (c["oneof"] <= 1):
                 report(c, f"{c['cls']} with {c['oneof']} members set: accepted={accepted}")
-        elif c["kind"] == "chain":
+        elif c["kind"] in ("chain", "train"):
             preset = c["mkw"].get("backbone_config")
             documented = (c["dkw"].get("scale") is None or isinstance(c["dkw"].get("scale"), float))
             if "err" in out:
@@ -1279,6 +1339,9 @@ def _check(run, impl, summary, built, join_perrun):
             else:
                 ex = c["extra"]
                 flags = dict((k, v) for k, v in out["ok"]["d"])
+                if ex["train_same"] is False:
+                    report(c, "train(...) hands run_training a configuration that differs from the one the three "
+                              "builders give for the same arguments")
                 if not flags["norm_same"]:
                     report(c, "verify_training_cfg changed a value")
                 if not flags["norm_idem"]:
@@ -1326,7 +1389,9 @@ def _check(run, impl, summary, built, join_perrun):
     replayed = replay_corpus(run, impl)
 
     # status of the dichotomy theorems, cross-checked against the implementation's behaviour on the witnesses
+    t_join = time.time()
     perrun_ok = join_perrun()
+    stages["waiting for the per-run theorem files after everything else"] = round(time.time() - t_join, 1)
     if perrun_ok:
         st = coq_status(run)
         if st is not None:
@@ -1352,7 +1417,9 @@ def _check(run, impl, summary, built, join_perrun):
         "exhaustive_scope": "every ordered list of distinct augmentation names up to length 4 (intensity 65, geometric 206"
                             + (", plus all 120 geometric lists of length 5" if run.tier == "thorough" else "") +
                             "); every documented backbone preset and head type; every builder parameter one at a time "
-                            "and all together; every validated field x boundary values; every oneof subset",
+                            "and all together (also through train(...) with run_training replaced by a recorder); every "
+                            "validated field x boundary values incl. NaN, +-inf, -0.0; every oneof subset; every builder / "
+                            "constructor case run as a call - mutate - call sequence",
         "cases_by_kind": kinds, "disagreements": disagreements, "oracle_failures": n_fail,
         "sentinels": {b: {p: repr(v) for p, v in s.items()} for b, s in sent.items()},
         "rule": "case = Coq case term; non-trivial = everything except rejected out-of-domain builder calls and the "
@@ -1363,6 +1430,10 @@ def _check(run, impl, summary, built, join_perrun):
             "(1000 vs None); clause (b) is read as: options not fed by any builder parameter hold the schema default",
             "verify_training_cfg is structured at the top level only: unknown nested keys are kept, absent nested keys "
             "are not filled in (modelled as leaves of the merge schema; compared on perturbed containers)",
+            "verify_training_cfg builds TrainingJobConfig(**cfg) from DictConfig sections: no attrs validator and no oneof "
+            "check runs on them, so a YAML / DictConfig with two head types, two backbones, an out-of-range probability "
+            "or an invalid scale passes normalisation unchanged (compared with the model on such containers); the "
+            "property's last clause is about configuration objects, i.e. the constructors, where all of these are rejected",
             "attrs validates on assignment with the instance *before* the assignment: PreprocessingConfig().scale = -1.0 "
             "is accepted; oneof is enforced at construction only (outside the property's wording)",
         ]})
@@ -1374,6 +1445,9 @@ def _check(run, impl, summary, built, join_perrun):
         "attrs (__init__, on_setattr validators) and OmegaConf (structured / merge / to_container / YAML save+load) "
         "are modelled in C20/CfgTree.v and compared on every generated case, not verified",
         "f-strings in error messages are treated as total; exceptions are compared by kind only",
+        "YAML save/load (OmegaConf / PyYAML) and train(...)'s argument forwarding are exercised through the oracle only; "
+        "'a fresh object per call' is a translator obligation (builders read parameters and locals only, shared "
+        "mutable-literal schema defaults are listed) cross-checked by the call - mutate - call sequences",
     ]
     return run.finish()
 
@@ -1440,8 +1514,8 @@ def replay(run: core.Run, path: str) -> int:
             out = attempt(lambda: impl.builder(c["builder"])(**c["kw"]))
         elif c.get("kind") == "mk":
             out = attempt(lambda: impl.classes[c["cls"]](**c["kw"]))
-        elif c.get("kind") == "chain":
-            out = attempt(lambda: impl.chain(c["dkw"], c["mkw"], c["tkw"]))
+        elif c.get("kind") in ("chain", "train"):
+            out = attempt(lambda: impl.chain(c["dkw"], c["mkw"], c["tkw"], via_train=c["kind"] == "train"))
         else:
             print(json.dumps(rep)[:2000])
             return 1
